@@ -26,6 +26,8 @@ fn merge_preserve_order<'a, T: Clone + PartialEq>(a: &'a [T], b: &'a [T]) -> std
 		let mut no_change = true;
 
 		while let Some(x) = ai.next_if(|x| bi.peek().is_some_and(|b| b == x)) {
+			// the element is at the front of both lists, so take it from both
+			bi.next();
 			r.push(x);
 			no_change = false;
 		}
@@ -34,7 +36,7 @@ fn merge_preserve_order<'a, T: Clone + PartialEq>(a: &'a [T], b: &'a [T]) -> std
 			r.push(x);
 			no_change = false;
 		}
-		while let Some(x) = bi.next_if(|x| !b.contains(x)) {
+		while let Some(x) = bi.next_if(|x| !a.contains(x)) {
 			r.push(x);
 			no_change = false;
 		}
